@@ -10,9 +10,9 @@ EXHAUSTIVE = True
 RULE = ("EXHAUSTIVE grid, every run: 20 tag kinds (value, triple, ampersand, comment, long comment, partial, decorator, "
         "block open/close, block open with one / two block parameters, else, else-chain, else-chain with a block parameter, inline open/close, partial-block open/close, raw open/close) x {~ before, "
         "~ after, both, none} x 16 left contexts x 15 right contexts drawn from {start/end of template, LF, CRLF, spaces, "
-        "tabs, text, text+LF+indent, blank line, NBSP / U+3000 / U+2003 / VT / FF (removed by '~', never blank)}; a second EXHAUSTIVE grid with ANOTHER TAG as the neighbour (value, triple, comment, "
+        "tabs, text, text+LF+indent, blank line, NBSP / U+3000 / U+2003 / VT / FF (removed by '~', never blank)}; the cells at the start / end of the template also through register_partial and register_template_string (rendered by name); a second EXHAUSTIVE grid with ANOTHER TAG as the neighbour (value, triple, comment, "
         "value with '~' towards the tag) x gap {none, space, LF, mixed} x text beyond the neighbour x the other side – a '~' removes the gap and nothing "
-        "beyond the neighbouring tag, and a line holding another tag is not standalone; plus random multi-line templates built from such lines; the family of the Lean theorems C11.tilde_value_trims_both_sides / tilde_before_value_trims_left_only / tilde_after_value_trims_right_only (any text, {{~v~}} | {{~v}} | {{v~}}, any text; oracle = the theorems' closed form, exact); oracle = the "
+        "beyond the neighbouring tag, and a line holding another tag is not standalone; plus random multi-line templates built from such lines; the family of the Lean theorems C11.tilde_value_trims_both_sides / tilde_before_value_trims_left_only / tilde_after_value_trims_right_only (any text, {{~v~}} | {{~v}} | {{v~}}, any text; oracle = the theorems' closed form, exact); the family of C11.if_block_on_its_own_lines (a block whose tags stand alone on their lines, between any admissible texts, every truthiness class; exact); oracle = the "
         "source-level whitespace rules (tilde: the whole whitespace run of the adjacent text; standalone line: "
         "indentation and one line break) evaluated on the source as written; non-trivial = the tag is standalone or has "
         "a tilde next to whitespace; distinct by cell")
@@ -129,7 +129,7 @@ def spec_parts(kind, tb, ta, L, R, xpre="", xpost=""):
     return l2, r2, standalone
 
 
-def mk(kind, tb, ta, L, R, idn):
+def mk(kind, tb, ta, L, R, idn, via="template"):
     pre, post, _ = scaffold(kind)
     if kind in ("comment", "lcomment") and (tb or ta):
         return None
@@ -140,9 +140,16 @@ def mk(kind, tb, ta, L, R, idn):
         src = pre + L + ("{{%s*nop this%s}}" % ("~" if tb else "", "~" if ta else "")) + R + post
     case = session(cfg, [("p", "P"), ("q", "Q({{> @partial-block}})")], {"api": "render_template", "src": src},
                    {"v": "V", "t": True, "f": False, "one": [{"v": "V"}], "o": {"v": "V"}})
+    if via != "template":
+        # the same source registered with register_partial / register_template_string and rendered by name: the end of a
+        # registered template is the same line boundary
+        ops = case["ops"]
+        rnd = ops.pop()
+        ops.append({"op": via, "reg": 0, "name": "t", "src": src})
+        ops.append({"op": "render", "reg": 0, "api": "render", "name": "t", "data": rnd["data"]})
     case["id"] = "%s-%s" % (ID, idn)
     exp, st = spec(kind, tb, ta, L, R)
-    return case, {"cell": [kind, tb, ta, L, R], "expect": exp, "standalone": st, "src": src}
+    return case, {"cell": [kind, tb, ta, L, R] + ([via] if via != "template" else []), "expect": exp, "standalone": st, "src": src}
 
 
 # neighbouring tags: (source, rendering, strips the gap after it, strips the gap before it)
@@ -227,6 +234,11 @@ def generate(rng, n, tier="quick"):
                     k += 1
                     if r is not None:
                         out.append(r)
+                    if R in ("", "  ", "\t", "\n") or L in ("", "  "):
+                        for via in ("reg_partial", "reg_string"):
+                            r = mk(kind, tb, ta, L, R, "g%05d%s" % (k - 1, via[4]), via)
+                            if r is not None:
+                                out.append(r)
     # random multi-line templates built from such lines
     j = 0
     target = len(out) + n
@@ -280,6 +292,22 @@ def generate(rng, n, tier="quick"):
         case = session({"escape": esc}, [], {"api": "render_template", "src": src}, {"v": val})
         case["id"] = "%s-thm%04d" % (ID, k)
         out.append((case, {"cell": ["thm"], "expect": (L if form == "right" else L.rstrip(WS)) + shown + (R if form == "left" else R.lstrip(WS)), "standalone": False, "src": src}))
+    # the family of the Lean theorem C11.if_block_on_its_own_lines: L ++ {{#if v}}⏎A⏎{{/if}} ++ R with L empty or ending an empty line
+    # and R beginning with the rest of an empty line; closed form  trimEndBlank L ++ (A⏎ if v) ++ stripFirstNewline(trimStartBlank R)
+    def _sfn(t):
+        return t[2:] if t.startswith("\r\n") else (t[1:] if t.startswith("\n") else t)
+    for k in range(max(40, n // 4)):
+        r = rng.fork("blk%d" % k)
+        head = thm_left(r)
+        L = r.pick(["", head + "\n", head + "\r\n", head + "\n" + r.pick(["  ", "\t", " \t "]), r.pick(["  ", "\t"]), head + "\r"])
+        tailtxt = thm_right(r)
+        R = r.pick(["", "  ", "\n", "\r\n", " \t\n", "\n" + tailtxt, "  \r\n" + tailtxt, "\n\n" + tailtxt, "\r" + tailtxt])
+        val = r.pick([True, False, 0, 1, "", "x", [], [0], None, {}])
+        src = L + "{{#if v}}\nA\n{{/if}}" + R
+        exp = L.rstrip(" \t") + ("A\n" if (val not in (False, 0, "", None) and val != [] and val != {}) else "") + _sfn(R.lstrip(" \t"))
+        case = session({"escape": "none"}, [], {"api": "render_template", "src": src}, {"v": val})
+        case["id"] = "%s-blk%04d" % (ID, k)
+        out.append((case, {"cell": ["thm"], "expect": exp, "standalone": True, "src": src}))
     return out
 
 
